@@ -273,3 +273,12 @@ def graphql_subclass_resolves_as_parent(job, failure) -> bool:
         return False
     ex = failure.get("extra", {})
     return ex.get("expected", {}).get("__typename") == "Employee" and ex.get("data", {}).get("__typename") == "Plain"
+
+
+def bytes_key_in_error_loc(job, failure) -> bool:
+    """C03: the only malformation of `errors` is a loc element that is a bytes key of the
+    data itself (the harness names that case; any other malformed entry is not this)"""
+    return (
+        failure.get("kind") == "errors-malformed"
+        and failure.get("detail") == "loc element is a bytes key of the data (not JSON-serializable)"
+    )
